@@ -5,6 +5,15 @@ use serde::{Deserialize, Serialize};
 
 /// Placeholder for the absolute path of the world root in texts (link targets, base paths, logs).
 pub const R: &str = "$R";
+/// Placeholder for the root of the *foreign* tree: nodes whose path is `$F` or begins with `$F/`
+/// are built on another file system than the world (under `/tmp`), and are reachable from the world
+/// only through links whose target begins with `$F`. Device boundaries are invisible to a walk
+/// that follows links — unless it asks walkdir to stay on one file system.
+pub const F: &str = "$F";
+
+pub fn is_foreign(path: &str) -> bool {
+    path == F || path.starts_with("$F/")
+}
 
 #[derive(Serialize, Deserialize, Clone, Debug, PartialEq, Eq)]
 pub enum Kind {
